@@ -302,6 +302,17 @@ def geometry(rng, p, kind, dz=1.0):
     lo = p["lo"]
     zu = max(z_uniform_of(p), lo + 20)
     top = p["hi"] - 1.0
+    if kind == "near-surface":
+        # one endpoint less than dz below the top of the ice (its leg to the reflection point is shorter than dz)
+        za = p["hi"] - rng.uniform(0.05 * dz, 0.98 * dz)
+        zb = p["hi"] - rng.choice([rng.uniform(0.05 * dz, 0.98 * dz), rng.uniform(15.0, 60.0), rng.uniform(60.0, 400.0), rng.uniform(60.0, 400.0)])
+        if zb < max(lo + 5, -650.0) or abs(za - zb) < 1e-3:
+            return None
+        if rng.random() < 0.5:
+            za, zb = zb, za
+        rho = max(abs(za - zb), 5.0) * math.tan(math.radians(rng.uniform(5, 80)))
+        return {"kind": kind, "z_from": za, "z_to": zb, "rho": rho, "phi": rng.uniform(0, 2 * math.pi),
+                "x0": rng.uniform(-500, 500), "y0": rng.uniform(-500, 500)}
     if kind == "close-depths":
         # source and receiver closer in depth than (a few) dz, including exactly equal depths
         za = rng.uniform(max(zu, lo) + 5, top - 3 * dz - 1) if rng.random() < 0.8 else rng.uniform(lo + 5, top - 3 * dz - 1)
@@ -577,10 +588,10 @@ KINDS = ["shallow", "deep", "cross", "vertical", "shadow", "exact-vertical", "cl
 def probes_and_e2e(ctx, do_model=True, escalate=1):
     rng = ctx.rng
     n_spec = ctx.n(80, 500) * escalate
-    n_basic = ctx.n(10, 40) * escalate
+    n_basic = ctx.n(9, 36) * escalate
     stats = {"geometries": {}, "solutions": 0, "no_solution": 0, "tracer_exception": 0}
     e2e_cases, e2e_expect, e2e_meta = [], [], []
-    plan = [("SpecializedRayTracer", 1.0, n_spec)] + [("BasicRayTracer", dz, n_basic) for dz in (0.1, 1.0, 5.0)]
+    plan = [("SpecializedRayTracer", 1.0, n_spec)] + [("BasicRayTracer", dz, n_basic) for dz in (0.1, 1.0, 2.0, 5.0)]
     t_start = time.time()
     for tracer, dz, count in plan:
         done = 0
@@ -588,7 +599,7 @@ def probes_and_e2e(ctx, do_model=True, escalate=1):
         while done < count and attempts < 5 * count:
             attempts += 1
             icep = pick_ice(rng)
-            kind = KINDS[(done + attempts) % len(KINDS)] if tracer != "BasicRayTracer" else rng.choice(["shallow", "cross", "shadow", "shallow", "exact-vertical", "close-depths", "close-depths"])
+            kind = KINDS[(done + attempts) % len(KINDS)] if tracer != "BasicRayTracer" else rng.choice(["shallow", "cross", "shadow", "shallow", "exact-vertical", "close-depths", "close-depths", "near-surface", "near-surface"])
             g = geometry(rng, icep, kind, dz)
             if g is None:
                 continue
